@@ -407,6 +407,7 @@ def run(tier):
     rule_R9(res, prog)
     rule_R10(res, prog)
     rule_R11(res, prog)
+    rule_R12(res, prog)
     rule_R1e(res, prog)
     return res.finish()
 
@@ -978,3 +979,42 @@ def rule_R11(res, prog):
                              "name" % (fo.relfile, esc[-1][1], fo.name, [p_[1] for p_ in esc[-5:]], what), file=fo.relfile, line=esc[-1][1])
             res.instance(rid, "%s: zero for `%s`" % (fo.name, what.split(" (")[0]), esc is None, finding=f_)
     res.floor(rid, 6)      # 4 writer sites + 2 owner-test clauses; without an owner test the writer sites are violations
+
+
+def rule_R12(res, prog):
+    """'altered, truncated ... tickets ... never a resumed session' for TLS 1.3 tickets: the AEAD open of the sealed state in
+    tls13DecryptTicket is given ciphertext length + the CONSTANT tag length (TLS_GCM_TAG_LEN = 16).  A tag length taken from
+    what is left of the ticket lets the peer choose a 1-octet tag, which a forger hits within 256 tries."""
+    from sa import cfgutil as cu
+    from sa.pp import pp
+    rid = "C14.R12"
+    res.rule(rid, "TLS 1.3 ticket: the AEAD open uses the constant 16-octet tag length")
+    lst = prog.by_name.get("tls13DecryptTicket")
+    if not lst:
+        if prog.defined("USE_TLS_1_3"):
+            raise AnalysisBroken("C14.R12: tls13DecryptTicket vanished")
+        res.floor(rid, 0)
+        return
+    fn = lst[0]
+    TAG = prog.const("TLS_GCM_TAG_LEN")
+    n = 0
+    for b, ln, call in fn.calls():
+        if call.get("fn") != "psAesDecryptGCM" or len(call.get("a", [])) < 5:
+            continue
+        n += 1
+        ct = strip(call["a"][2])
+        ptl = strip(call["a"][4])
+        ok = False
+        if ct is not None and ct.get("k") == "bin" and ct["op"] == "+":
+            l, r = strip(ct["l"]), strip(ct["r"])
+            for (v, k) in ((l, r), (r, l)):
+                if k is not None and k.get("k") == "int" and k["v"] == TAG and v is not None:
+                    ok = True
+        f_ = None
+        if not ok:
+            f_ = Finding(PROP, rid, fn.name, "ticket AEAD tag length is not the constant",
+                         "%s:%s tls13DecryptTicket(): psAesDecryptGCM(.., %s, .., %s): the ciphertext length is not `<sealed state length> + %d` with the constant tag length: "
+                         "the tag length follows the ticket the peer sent, so a truncated ticket (tag of 1..15 octets) is opened and a forged "
+                         "one is accepted with probability 2^-8 per try" % (fn.relfile, ln, pp(ct)[:40], pp(ptl)[:30], TAG), file=fn.relfile, line=ln)
+        res.instance(rid, "tls13DecryptTicket:%s AEAD open with ciphertext length = plaintext length + %d" % (ln, TAG), ok, finding=f_)
+    res.floor(rid, 1)
